@@ -63,6 +63,8 @@ ALL_FEATURES = [
     "global_readers",       # globals that read other aggregate globals:  r :: comptime { p.a }
     "local_comptime_calls", # comptime blocks *inside recursive functions*, after the recursive call,
                             # that call other functions: as a constant, an array size, a type
+    "generic_dependent",    # generic functions with a comptime parameter whose type is an earlier
+                            # comptime parameter:  (comptime T: type, comptime v: T, x: T) -> T
     "comptime_locals",      # comptime globals whose blocks declare local variables and read other
                             # comptime globals
     "use_core",             # main prints through core.println (the real `core` module, ~300 more
@@ -1235,6 +1237,28 @@ class _Gen:
             self.p.pins[b] = 2 if self.p.pins[a] == 1 or r.random() < 0.5 else 1
             nfile += 1
 
+    def mk_generic_dependent(self):
+        name = self.fresh("pk")
+        it = Item(name, "generic")
+        it.is_function = True
+        op = self.rnd.choice(["+", "*", "-"])
+        it.render = lambda ref: "%s :: (comptime T: type, comptime v: T, x: T) -> T {\n    x %s v\n}" % (name, op)
+        a, b = self.rnd.randint(1, 9), self.rnd.randint(1, 9)
+        it.uses = lambda ref, tmp: ["emit(%s(i64, %d, %d));" % (ref(name), a, b),
+                                    "emit(i64.(%s(i32, %d, %d)));" % (ref(name), b, a)]
+        self.p.add(it)
+        # a non-generic caller, so that the call can sit in another file than the generic function
+        cname = self.fresh("cp")
+        cit = Item(cname, "fn")
+        cit.is_function = True
+        cit.deps.add(name)
+        k = self.rnd.randint(1, 9)
+        cit.render = lambda ref: "%s :: (a: i64) -> i64 {\n    %s(i64, %d, a %% 50)\n}" % (cname, ref(name), k)
+        arg = self.rnd.randint(0, 40)
+        cit.uses = lambda ref, tmp: ["emit(%s(%d));" % (ref(cname), arg)]
+        self.p.add(cit)
+        self.int_fns.append(cname)
+
     def build(self):
         self.add_prelude()
         r = self.rnd
@@ -1288,6 +1312,8 @@ class _Gen:
             menu.append(("local_ct_fn", self.mk_local_ct_fn, 2))
         if "generic_twins" in f:
             menu.append(("generic_twins", self.mk_generic_twins, 1))
+        if "generic_dependent" in f:
+            menu.append(("generic_dependent", self.mk_generic_dependent, 1))
         weights = [w for _, _, w in menu]
         guard = 0
         while self.count_globals() < self.n and guard < 100:
